@@ -113,6 +113,9 @@ pub fn install_quiet_panic_hook() {
         let loc = info
             .location()
             .map(|l| format!("{}:{}", l.file(), l.line()));
+        if std::env::var("VERIF_DEBUG_PANIC").is_ok() {
+            eprintln!("panic: {}", info);
+        }
         LAST_PANIC_LOCATION.with(|l| *l.borrow_mut() = loc);
     }));
 }
